@@ -8,7 +8,7 @@ from . import common as C, lin
 
 PROP = "C11"
 WIDEN_MAX = 60          # extra thorough-generator cases when the anchored sources have drifted (harness/drift.py)
-PROPS_FILE = ["props/C11.v", "props/GI2.v"]
+PROPS_FILE = ["props/C11.v", "props/GI2.v", "props/GI5.v"]
 TRUSTED_EXTRA = ["props/GI2.v (C08 / C09 / C11 as statements about iterated improper Riemann integrals, at Coq's real numbers: stdlib Reals + Coquelicot + base/RField.v) depends on the standard-library axioms ClassicalDedekindReals.sig_not_dec, sig_forall_dec, FunctionalExtensionality.functional_extensionality_dep, Classical_Prop.classic, Epsilon.epsilon_statement; the theorems of props/C11.v (every real field) stay closed under the global context"]
 IMPORTS = "C11_kalman"
 RULE = ("cases = static: Gaussian prior (Dw in 1..3) and N in 1..4 (quick) / 1..6 (thorough) linear-Gaussian observations with "
